@@ -384,6 +384,85 @@ class StructExtract:
         return out
 
 
+class NameInj:
+    """//@ nameinj FILE :: STRUCT   (property C08: two parameterisations of one custom operation never collide)
+    Emits, from the CURRENT text of /repo: the struct; the REAL body of `impl CustomOperationBody for STRUCT :: fn get_name` with the
+    `format!(LIT, e1, ..)` / `"LIT".to_owned()` expression turned into `vfmt(LIT, &[fa(&(e1)), ..])` (S9: the formatting machinery is the
+    stub vfmt whose result determines its argument list); a spec function name_args() lifted MECHANICALLY from that argument list; the contract
+    `fmt_args(res@) == self.name_args()` on the real body; and the lemma name_injective_STRUCT: equal argument lists imply equal structs."""
+
+    def __init__(self, unit, file, name, uline):
+        self.unit, self.file, self.name, self.uline = unit, file, name, uline
+        self.log = {}
+
+    def render(self):
+        st = StructExtract(self.unit, self.file, self.name, self.uline)
+        try:
+            out = st.render()
+            unit_struct = False
+        except LostAnchor:
+            out = [Line(f"pub struct {self.name} {{}}", "unit", self.unit, self.uline)]   # `struct X;`
+            unit_struct = True
+        src = read_repo(self.file)
+        msk = mask(src)
+        loc = find_fn(src, msk, "get_name", "CustomOperationBody for " + self.name)
+        ob, cb = loc["open"], loc["close"]
+        body = src[ob + 1:cb]
+        first = line_of(src, ob)
+        bm = mask(body)
+        if ";" in bm:
+            raise LostAnchor(f"{self.file}::{self.name}::get_name: body is not a single expression (S9 supports format!(..) and a literal)")
+        btxt = body.strip()
+        m_lit = re.match(r'^(?:String::from\(\s*("(?:[^"\\]|\\.)*")\s*\)|("(?:[^"\\]|\\.)*")\s*\.\s*(?:to_owned|to_string|into)\(\))$', btxt, flags=re.S)
+        m_fmt = re.match(r'^format!\s*([({])(.*)[)}]$', btxt, flags=re.S)
+        if m_lit:
+            lit, args = m_lit.group(1) or m_lit.group(2), []
+        elif m_fmt:
+            inner = m_fmt.group(2)
+            im = mask(inner)
+            parts, depth, last = [], 0, 0
+            for k, ch in enumerate(im):
+                if ch in "([{":
+                    depth += 1
+                elif ch in ")]}":
+                    depth -= 1
+                elif ch == "," and depth == 0:
+                    parts.append(inner[last:k])
+                    last = k + 1
+            parts.append(inner[last:])
+            parts = [x.strip() for x in parts if x.strip()]
+            lit, args = parts[0], parts[1:]
+            if not lit.startswith('"'):
+                raise LostAnchor(f"{self.file}::{self.name}::get_name: format! without a literal template")
+            caps = re.findall(r"(?<!\{)\{([A-Za-z_][A-Za-z0-9_]*)(?::[^}]*)?\}", lit)   # inline captures {x} / {x:?}
+            args = caps + args
+        else:
+            raise LostAnchor(f"{self.file}::{self.name}::get_name: unsupported body shape (S9 supports format!(..) and a literal)")
+        nm = self.name
+        spec_args = ", ".join("arg(" + a + ")" for a in args)
+        exec_args = ", ".join("fa(&(" + a + "))" for a in args)
+        L = lambda t, tag=None: Line(t, "unit", self.unit, self.uline, "get_name_" + nm, tag)
+        out.append(L(f"impl {nm} {{"))
+        out.append(L(f"    pub open spec fn name_args(&self) -> Seq<FmtArg> {{ seq![{spec_args}] }}   // lifted mechanically from the argument list of get_name"))
+        out.append(L(f"    pub fn get_name(&self) -> (res: String)"))
+        tag1 = "C08 the-name-is-built-from-exactly-these-arguments"
+        out.append(L(f"        ensures fmt_args(res@) == self.name_args(), //# {tag1}", tag1))
+        nl = body.count("\n")
+        out.append(Line("    { vfmt(" + lit.replace("\n", " ") + ", &[" + exec_args + "]) }" , "repo", self.file, first, "get_name_" + nm))
+        out.append(L("}"))
+        tag2 = "C08 two-parameterisations-of-one-operation-never-get-the-same-name_(every-field-of-the-operation-is-an-argument-of-its-name)"
+        out.append(Line(f"pub proof fn name_injective_{nm}(a: {nm}, b: {nm})", "unit", self.unit, self.uline, "name_injective_" + nm))
+        out.append(Line(f"    requires a.name_args() == b.name_args(),", "unit", self.unit, self.uline, "name_injective_" + nm))
+        out.append(Line(f"    ensures a == b, //# {tag2}", "unit", self.unit, self.uline, "name_injective_" + nm, tag2))
+        sub = lambda e, v: re.sub(r"\bself\b", v, e)
+        hints = " ".join(f"assert(a.name_args()[{k}] == arg({sub(e, 'a')})); assert(b.name_args()[{k}] == arg({sub(e, 'b')})); ax_arg_inj({sub(e, 'a')}, {sub(e, 'b')});" for k, e in enumerate(args))
+        out.append(Line("{ " + hints + " }", "unit", self.unit, self.uline, "name_injective_" + nm))
+        self.log = [dict(file=self.file, fn="get_name_" + nm, impl="CustomOperationBody for " + nm, lines=[first, line_of(src, cb)], kind="fn",
+                         rewrites={"S1": 1, "S9_format_to_vfmt": dict(template=lit[:80], args=args)}),
+                    dict(file=self.file, fn="name_injective_" + nm, impl=None, lines=[first, line_of(src, cb)], kind="lemma", rewrites={})]
+        return out
+
+
 class ConstExtract:
     def __init__(self, unit, file, name, uline):
         self.unit, self.file, self.name, self.uline = unit, file, name, uline
@@ -438,6 +517,12 @@ def parse_unit(path):
                 if not m:
                     raise UnitError(f"{path}:{ln}: bad struct directive")
                 items.append(StructExtract(unit_rel, m.group(1), m.group(2), ln, m.group(3) or ""))
+                continue
+            if d.startswith("nameinj "):
+                m = re.match(r"nameinj\s+(\S+)\s*::\s*(\w+)$", d)
+                if not m:
+                    raise UnitError(f"{path}:{ln}: bad nameinj directive")
+                items.append(NameInj(unit_rel, m.group(1), m.group(2), ln))
                 continue
             if d.startswith("const "):
                 m = re.match(r"const\s+(\S+)\s*::\s*(\w+)$", d)
@@ -554,7 +639,10 @@ def generate(path, outdir):
             lines.append(it)
         else:
             lines.extend(it.render())
-            logs.append(it.log)
+            if isinstance(it.log, list):
+                logs.extend(it.log)
+            else:
+                logs.append(it.log)
     lines.append(Line("} // verus!", "gen", "", 0))
     lines.append(Line("fn main() {}", "gen", "", 0))
     os.makedirs(outdir, exist_ok=True)
